@@ -350,7 +350,11 @@ func Check(c Case) *vfrun.Failure {
 			return vfrun.Failf("defer.merged-differs-from-plain", "[%s] merged payloads differ from the plain result (%d payloads)\n got: %s\nwant: %s", s.P.Vec, len(r.out), merged.Canon(), ref.Data.Canon())
 		}
 		sort.Strings(allErrs)
-		if x, ok := subMultiset(allErrs, oracle.ExpErrors(ref.Errors)); !ok {
+		expErrs := oracle.ExpErrors(ref.Errors)
+		if _, ok := subMultiset(allErrs, expErrs); !ok && vfrun.KnownListed(oracle.LeafElemPathKey) {
+			expErrs = oracle.ExpErrorsIndexless(ref.Errors)
+		}
+		if x, ok := subMultiset(allErrs, expErrs); !ok {
 			return vfrun.Failf("defer.extra-error", "[%s] error %q is reported with @defer but not by the plain execution %q", s.P.Vec, x, oracle.ExpErrors(ref.Errors))
 		}
 		// --- (2) against the same server executing the query with every @defer removed
